@@ -226,14 +226,27 @@ theorem dimCoordName_same (s : St) (p : Option Name) (c : Cons) : Same s (dimCoo
   unfold dimCoordName
   split
   · split
-    · exact Same.refl s
+    · split
+      · exact Same.refl s
+      · exact netcdfName_same _ _
     · exact netcdfName_same _ _
   · exact createName_same _ _ _ _
+
+/-- a dimension is added and a name clash may be flagged -/
+theorem step_add_dim_dup (s : St) (d : Name × Nat) (b : Bool) :
+    Step s { s with dimSizes := s.dimSizes ++ [d], dup := s.dup || b } := by
+  refine ⟨⟨List.prefix_refl _, List.prefix_refl _, List.prefix_refl _, List.prefix_append _ _, ?_⟩, ?_⟩
+  · intro h; simp [h]
+  · intro i
+    refine ⟨i.seen, i.links, ?_⟩
+    intro hd
+    simp only [Bool.or_eq_false_iff] at hd
+    exact i.uniq hd.1
 
 theorem createDimCoord_step (s : St) (size : Nat) (p : Option Name) (c : Cons) :
     Step s (createDimCoord s size p c).1 := by
   unfold createDimCoord
-  exact ((dimCoordName_same s p c).trans (same_add_dim _ _)).step.trans
+  exact ((dimCoordName_same s p c).step.trans (step_add_dim_dup _ _ _)).trans
     ((writeBounds_step _ _ _ _).trans (emitVar_step _ _))
 
 theorem createDimCoord_seen (s : St) (size : Nat) (p : Option Name) (c : Cons) :
